@@ -64,6 +64,7 @@ struct Run
   int templog = 0;
   int lazycomp = 0;   // the wrapped component does not look up the runtime itself (a hand-written component need not)
   int idquery = 0;    // ask for the client identifiers after this many registrations (0 = only at the end)
+  int refetch = 0;    // the user does not keep the port it got from the accessor but asks the accessor again for every call
   int hquery = 0;     // the user's out-event handlers of the multi-client port ask the shell for the client identifiers
   int temploc = 0;    // 'create' only: the prototype locator handed to the constructor is destroyed right after construction
   int reentry = 0;    // the user's log sink registers one more client ('monitor') when it receives its k-th message
@@ -512,7 +513,10 @@ static CallResult outer_call(int ev, int client)
   const PortDesc& pd = g_model.ports[static_cast<size_t>(e.port)];
   const size_t ci = (pd.sem == 2 && client >= 0) ? static_cast<size_t>(client) : 0;
   EvCtx cc{ev, 0, pd.sem == 2 ? client : -1};
-  CallResult r = e.call(g_outer_obj[static_cast<size_t>(e.port)][ci], cc);
+  void* obj = g_outer_obj[static_cast<size_t>(e.port)][ci];
+  if (g_run.refetch && !g_run.connect && pd.sem != 3 && sim_ctr_get(CTR_FCSTATE) == 2)
+    obj = pd.outer(g_shell, pd.sem == 2 ? g_run.client_names[ci] : std::string());   // `shell.ProvidesX().port.in.Ev(...)` every time
+  CallResult r = e.call(obj, cc);
   if (g_run.scrub) scrub_stack();
   return r;
 }
@@ -977,6 +981,20 @@ static void execute_run(int out_fd)
       {
         rec("probe_register_after_fc result=throw what=" + sanitize(e.what()));
       }
+      try
+      {  // the refused registration must not have left anything behind: asking again is refused again ...
+        pd.outer(g_shell, "latecomer");
+        rec("probe_register_again result=ok");
+      }
+      catch (const std::exception& e)
+      {
+        rec("probe_register_again result=throw what=" + sanitize(e.what()));
+      }
+      {  // ... and the registry lists exactly the clients registered before FinalConstruct
+        std::string ids;
+        for (auto& s : g_model.shell.client_ids(g_shell, g_model.mc_port)) ids += (ids.empty() ? "" : ",") + pct_encode(s);
+        rec("client_ids_after_probe ids=" + (ids.empty() ? std::string("-") : ids));
+      }
       if (R.n_clients > 0)
       {
         try
@@ -1087,6 +1105,7 @@ static bool parse_run(const std::vector<std::string>& lines, Run& R)
     else if (kw == "REENTRY") is >> R.reentry;
     else if (kw == "TEMPLOC") is >> R.temploc;
     else if (kw == "HQUERY") is >> R.hquery;
+    else if (kw == "REFETCH") is >> R.refetch;
     else if (kw == "TASK")
     {
       TaskSpec t;
